@@ -39,6 +39,33 @@ def parse_conn(ids_by_pv, data):
 
 def run(chk):
     common.standard_proof(chk, 'Properties/C09.v')
+    negotiate(chk, 'negotiate', 330)
+    callers_collection(chk)
+    status_queries(chk)
+    runtime_tables(chk)
+
+
+def runtime_tables(chk):
+    """The version tables are edited at run time (the documented dynamic version support: edit the records, call initglobals):
+    a newer release and a snapshot become supported, the two oldest protocols are withdrawn.  Construction, negotiation and the
+    wording of a mismatch follow the tables as they are now - the model is given the module's current tables."""
+    import minecraft as mc
+    saved = list(mc.KNOWN_MINECRAFT_VERSION_RECORDS)
+    try:
+        old = list(mc.SUPPORTED_PROTOCOL_VERSIONS)[:2]
+        recs = [v._replace(supported=False) if v.protocol in old else v for v in saved]
+        recs += [mc.Version('99w01a', 9989, True), mc.Version('99.9', 9990, True), mc.Version('99.10', 9991, False)]
+        mc.KNOWN_MINECRAFT_VERSION_RECORDS[:] = recs
+        mc.initglobals(use_known_records=True)
+        extra = [[9990], ['99.9'], [9989, 757], [old[0]], [old[1], 757], [9991], None, [757]]
+        behs = [('proto', 9990), ('proto', 9989), ('proto', old[0]), ('proto', 9991), ('proto', 757)]
+        negotiate(chk, 'negotiate-after-runtime-edit', 120, sets=extra, behs=behs)
+    finally:
+        mc.KNOWN_MINECRAFT_VERSION_RECORDS[:] = saved
+        mc.initglobals(use_known_records=True)
+
+
+def negotiate(chk, suite, limit, sets=None, behs=None):
     import minecraft
     from minecraft.networking.connection import Connection
     from minecraft.exceptions import VersionMismatch
@@ -59,6 +86,7 @@ def run(chk):
             return ('name', inv[p])
         return ('num', p) if isinstance(p, int) else ('other', p)
     plan = []
+    fixed_sets, fixed_behs = sets, behs
     sets = [None, [757], [47], [757, 757], [47, 757], [340, 47], sup[:1], sup[:2], sup[:10], sup[-3:], sup, [sup[0], sup[-1]], [], [5], [47, 9999], ['1.8', 757], ['nonsense'], [None], [4.5]]
     for _ in range(80 if th else 25):
         k = rng.choice([1, 2, 2, 3, 5])
@@ -69,10 +97,12 @@ def run(chk):
             beh = behs[_] if _ < len(behs) else ('proto', rng.choice(sup + unsup))
             ini = rng.choice([None, None, 757, 47, '1.12.2', rng.choice(sup), 5, 'bogus'])
             plan.append((al, ini, beh))
-    if not th:
+    if not th or fixed_sets:
         rng.shuffle(plan)
-        plan = plan[:330]
-    if th:
+        plan = plan[:limit]
+    if fixed_sets:
+        plan = [(al, ini, beh) for al in fixed_sets for beh in fixed_behs for ini in (None, 757)] + plan[:limit // 3]
+    elif th:
         for p in sup:                                   # every supported protocol as the server's answer
             plan.append((rng.choice([sup, sup[:40], [p, 757], [47, 757]]), rng.choice([None, 47]), ('proto', p)))
     reqs, obs = [], []
@@ -151,7 +181,7 @@ def run(chk):
     res = run_model(reqs)
     for (al, ini, beh), o, r in zip(plan, obs, res):
         case = {'allowed': al if al is None or len(al) < 12 else '%d versions' % len(al), 'initial': ini, 'server': list(beh)}
-        chk.count('negotiate', [repr(al)[:300], ini, beh], al is None or len(set(map(str, al))) > 1)
+        chk.count(suite, [repr(al)[:300], ini, beh], al is None or len(set(map(str, al))) > 1)
         chk.tally('server:%s' % beh[0])
         what = None
         if o.get('callers_collection'):
@@ -184,10 +214,9 @@ def run(chk):
             elif out[0] == 2 and o['outcome'] != [2]:
                 what = 'outcome %s; an empty status object must be rejected as invalid' % (o['outcome'],)
         if what:
-            chk.violation('negotiate', 'negotiate:%s' % (hash(repr(case)) % 10 ** 8), {'case': case, 'observed': o, 'expected': r}, 'allowed=%s initial=%s server=%s: %s' % (case['allowed'], ini, list(beh), what))
-    callers_collection(chk)
-    status_queries(chk)
-    chk.sample('negotiate', {'allowed': [47, 757], 'server': ['proto', 47], 'conns': obs[0].get('conns')}, k=1)
+            chk.violation(suite, '%s:%s' % (suite, hash(repr(case)) % 10 ** 8), {'case': case, 'observed': o, 'expected': r}, 'allowed=%s initial=%s server=%s: %s' % (case['allowed'], ini, list(beh), what))
+    if suite == 'negotiate':
+      chk.sample('negotiate', {'allowed': [47, 757], 'server': ['proto', 47], 'conns': obs[0].get('conns')}, k=1)
     chk.assumptions += ['json.loads is library code: the model starts from the shape of the parsed status object; the harness generates the text',
                         'the clock (timeit.default_timer) is replaced by a deterministic monotone fake']
 
